@@ -139,6 +139,24 @@ def main(argv=None):
                                        'string': e2e['string'], 'forc': e2e['message'][-200:]})
                     st['unconfirmed'] = st.get('unconfirmed', 0) + 1
                     continue
+            if reproduced and pid == 'C25':
+                from . import c25_real
+                vals = r.get('vals') or []
+                k = next((i + 1 for i, v in enumerate(vals) if v and v[0] & 1), None)
+                try:
+                    binary = c25_real.build()
+                    if h.meta.get('kind') == 'crash':
+                        real = c25_real.run_schedule(binary, h.meta['pre'], h.meta['a'], 'is_locked', crash_at=k)
+                    else:
+                        real = c25_real.run_schedule(binary, h.meta['pre'], h.meta['a'], h.meta['b'], preempt_at=k)
+                except Exception as e:  # noqa
+                    real = {'error': repr(e), 'violation': False}
+                r['real_fs'] = real
+                rep['real_fs'] = real
+                if not real.get('violation'):
+                    unexplored.append({'harness': h.name, 'why': 'model-level counterexample not reproduced with real OS processes on the real file system', 'real': real})
+                    st['unconfirmed'] = st.get('unconfirmed', 0) + 1
+                    continue
             if not reproduced:
                 engine_errors += 1
                 log(f'ENGINE-ERROR harness {h.name}: Kani counterexample did not reproduce natively: vals={r.get("vals")} replay={rep} checks={r["failed_checks"][:3]}')
